@@ -532,17 +532,27 @@ Theorem C05_restore_repaired :
   spec_aggs udur udist cfg_activities [wtour2] (K_BAL OActivities) = Some (SVec [VZ 2]).
 Proof. exact restore_repaired. Qed.
 
-(* C05-F6 (open): what 38e261f does not cover - a tour emptied BY A STATE HANDLER during accept_solution_state (an obsolete reload
+(* C05-F6, restore BEFORE its repair (`again = false`, regression mutant C05-19): what 38e261f does not cover - a tour emptied BY A STATE HANDLER during accept_solution_state (an obsolete reload
    marker, the tour's last activity, is taken out by remove_trivial_markers; the round restarts) is counted by the aggregates of the
    restarted round and dropped afterwards ([2; 0]; the remaining tour gives [2]) *)
 Theorem C05_restore_counts_tour_emptied_by_a_handler_refuted :
   let es := goal_table udur udist cfg_activities in
-  let s' := restore_with_restart drop_markers es
+  let s' := restore_with_restart false drop_markers es
               (mkS [wfresh cfg_activities wtour2; wfresh cfg_activities wtourm] (fun _ => None)) in
   map rc_tour (s_routes s') = [wtour2] /\
   s_aggs s' (K_BAL OActivities) = Some (SVec [VZ 2; VZ 0]) /\
   spec_aggs udur udist cfg_activities [wtour2] (K_BAL OActivities) = Some (SVec [VZ 2]).
 Proof. exact restore_counts_tour_emptied_by_handler. Qed.
+(* the same with restore as it is since the repair of C05-F6 (`again = true`: the final clean-up removed a tour, so
+   accept_solution_state runs once more): the aggregate is the fold over the tour that remains, nothing is stale *)
+Theorem C05_restore_after_handler_emptied_tour_repaired :
+  let es := goal_table udur udist cfg_activities in
+  let s' := restore_with_restart true drop_markers es
+              (mkS [wfresh cfg_activities wtour2; wfresh cfg_activities wtourm] (fun _ => None)) in
+  map rc_tour (s_routes s') = [wtour2] /\ Forall (fun r => rc_stale r = false) (s_routes s') /\
+  s_aggs s' (K_BAL OActivities) = Some (SVec [VZ 2]) /\
+  spec_aggs udur udist cfg_activities [wtour2] (K_BAL OActivities) = Some (SVec [VZ 2]).
+Proof. exact restore_after_handler_emptied_tour_repaired. Qed.
 
 (* non-vacuity of the hand-over invariant and of the side conditions: cfg_full passes both checks; a stale context with an empty
    cache satisfies the invariant, so does the context accept_solution_state makes of it, which holds the values *)
